@@ -177,9 +177,9 @@ def coq_build(timeout=3000, targets=None):
             sh("coq_makefile -f _CoqProject -o Makefile", cwd=COQ, check=True)
         if targets:
             tg = " ".join(t[:-2] + ".vo" for t in targets)
-            rc, out = sh("make -j%d %s" % (NCPU, tg), cwd=COQ, timeout=timeout)
+            rc, out = sh("make COQC='timeout 1500 coqc' -j%d %s" % (NCPU, tg), cwd=COQ, timeout=timeout)
         else:
-            rc, out = sh("make -k -j%d" % NCPU, cwd=COQ, timeout=timeout)
+            rc, out = sh("make COQC='timeout 1500 coqc' -k -j%d" % NCPU, cwd=COQ, timeout=timeout)
         return rc == 0, out
 
 
